@@ -102,7 +102,61 @@ def thresholds(tier):
 def cases(tier, seed):
   import os
   n = int(os.environ.get("VERIF_C19_MODELS", "0") or 0) or N_MODELS[tier]   # debugging aid only
-  return [{"idx": i, "seed": seed} for i in range(n)]
+  sweeps = [{"sweep": j, "idx": n + j, "seed": seed} for j in range(8 if tier == "quick" else 80)]
+  return [{"idx": i, "seed": seed} for i in range(n)] + sweeps
+
+
+def run_sweep(case, ctx):
+  """Geometry sweep: models that differ *only* in strides / padding / dilation of one layer (same layer
+  name, same input shape, same parameter count) analysed one after the other in this process; every
+  count must be the loop-nest count of its own geometry (nothing may be remembered between models)."""
+  import numpy as np
+  import tensorflow as tf
+  import qkeras
+  from qkeras.qtools import run_qtools
+  rnd = random.Random(case["seed"] * 104729 + case["sweep"])
+  kind = rnd.choice(["conv2d", "conv2d", "dw", "conv1d"])
+  k = rnd.choice([2, 3])
+  cin, f = rnd.choice([1, 2, 3]), rnd.choice([1, 2, 4])
+  size = rnd.choice([7, 8, 9, 12])
+  variants = [(1, "valid", 1), (2, "valid", 1), (1, "same", 1), (2, "same", 1), (1, "valid", 2), (1, "same", 2), (3, "same", 1)]
+  rnd.shuffle(variants)
+  name = "sweep_" + kind
+  for (stride, pad, dil) in variants[:5]:
+    tf.keras.backend.clear_session()
+    if kind == "conv1d":
+      inp = tf.keras.layers.Input((size, cin), name="in")
+      layer = qkeras.QConv1D(f, k, strides=stride, padding=pad, dilation_rate=dil, name=name,
+                             kernel_quantizer="quantized_bits(4,0,1)", bias_quantizer="quantized_bits(4,0,1)")
+    elif kind == "conv2d":
+      inp = tf.keras.layers.Input((size, size, cin), name="in")
+      layer = qkeras.QConv2D(f, (k, k), strides=(stride, stride), padding=pad, dilation_rate=(dil, dil), name=name,
+                             kernel_quantizer="quantized_bits(4,0,1)", bias_quantizer="quantized_bits(4,0,1)")
+    else:
+      inp = tf.keras.layers.Input((size, size, cin), name="in")
+      layer = qkeras.QDepthwiseConv2D((k, k), strides=(stride, stride), padding=pad, dilation_rate=(dil, dil), name=name,
+                                      depthwise_quantizer="quantized_bits(4,0,1)", bias_quantizer="quantized_bits(4,0,1)")
+    base = {"part": "count", "route": "qtools", "cls": type(layer).__name__}
+    ok, model = ctx.call(dict(base, op="build_sweep_model"), lambda: tf.keras.Model(inp, layer(inp)))
+    if not ok:
+      continue
+    out = [int(d) for d in model.output_shape[1:]]
+    kvol = k if kind == "conv1d" else k * k
+    expect = int(np.prod(out[:-1])) * kvol * cin * (f if kind != "dw" else 1)
+    ok, q = ctx.call(dict(base, op="QTools"), lambda: _quiet_call(
+        run_qtools.QTools, model, process="horowitz", source_quantizers=[qkeras.quantized_bits(8, 0, 1)],
+        is_inference=False, weights_path=None, keras_quantizer="fp32", keras_accumulator="fp32", for_reference=False))
+    if not ok:
+      continue
+    got = q._output_dict.get(name, {}).get("operation_count")      # pylint: disable=protected-access
+    ctx.count("sweep.models")
+    ctx.evals(1)
+    ctx.nontrivial("sweep", kind, k, cin, f, size, stride, pad, dil)
+    if got is None or int(got) != expect:
+      ctx.violation(dict(base, kind="count_mismatch_in_geometry_sweep"),
+                    "%s k=%d cin=%d f=%d input %d, strides %d padding %s dilation %d: reports %r operations, the loop nest performs %d" % (
+                        kind, k, cin, f, size, stride, pad, dil, got, expect),
+                    {"variants_before": variants[:5]})
 
 
 def expand(case, tier):
@@ -335,6 +389,8 @@ def keras_selfcheck(ctx, n):
 # ------------------------------------------------------------------------------------ the case
 def run_case(case, ctx):
   import tensorflow as tf
+  if "sweep" in case:
+    return run_sweep(case, ctx)
   st = ctx.state["c19"]
   case = expand(case, ctx.tier)
   ctx.case = case
